@@ -341,6 +341,34 @@ def run(ctx):
             if p.returncode != 0 or sorted(strip_stamp(p.stdout).rstrip("\n").split("\n")) != sorted(strip_stamp(ret).rstrip("\n").split("\n")):
                 res.violation("command-line conversion differs from the function call", {"kind": "cli", "file": open(path).read()[:800], "generator": gen_},
                               impl=(p.stderr or "")[-300:], clause="command-line entry point")
+    # the file named on the command line is the file that is converted, whatever characters its name has: names and directories
+    # with brackets, a star, a question mark, blanks (legal file names), next to a neighbour that a shell-style reading of the name
+    # as a pattern would pick instead
+    import shutil
+
+    odd_names = [("model[v2].txt", ["model2.txt", "modelv.txt"]), ("fit[1].opt", ["fit1.opt"]), ("run[2024]/model.txt", ["run2/model.txt", "run0/model.txt"]),
+                 ("a*b.txt", ["aXb.txt", "ab.txt"]), ("what?.txt", ["whatX.txt"]), ("my model (final).txt", []), ("[abc]", ["a", "b"])]
+    picks = odd_names if tier == "thorough" else [odd_names[seed % len(odd_names)], odd_names[(seed + 3) % len(odd_names)]]
+    if len(files) >= 2:
+        for k, (odd, neighbours) in enumerate(picks):
+            src, other = files[1][0], files[0][0]
+            base = os.path.join(tmp, f"cli_odd_{k}")
+            target = os.path.join(base, odd)
+            os.makedirs(os.path.dirname(target), exist_ok=True)
+            shutil.copyfile(src, target)
+            for nb in neighbours:
+                os.makedirs(os.path.dirname(os.path.join(base, nb)), exist_ok=True)
+                shutil.copyfile(other, os.path.join(base, nb))
+            gen_, py = (("goofit", False), ("goofitpy", True))[(seed + k) % 2] if tier == "quick" else (None, None)
+            for gen_, py in ([(gen_, py)] if gen_ else [("goofit", False), ("goofitpy", True)]):
+                p = subprocess.run([sys.executable, "-m", "decaylanguage", "-G", gen_, target], capture_output=True, text=True, env=dict(os.environ), timeout=600)
+                ret = convert(src, py)
+                res.case()
+                res.count("cli_odd_file_names")
+                if p.returncode != 0 or sorted(strip_stamp(p.stdout).rstrip("\n").split("\n")) != sorted(strip_stamp(ret).rstrip("\n").split("\n")):
+                    res.violation("the command line does not convert the file it is given (a file name with pattern-like characters)",
+                                  {"kind": "cli", "file_name": odd, "neighbours": neighbours, "file": open(src).read()[:800], "generator": gen_},
+                                  impl={"exit": p.returncode, "stdout_lines": len(p.stdout.split("\n")), "stderr": (p.stderr or "")[-300:]}, clause="command-line entry point")
     # ---- program tie: the declaration / use structure of both real outputs against the model (progCpp / progPy), the model's
     # closure verdict against the real text, and "Supported => closed" (theorems C19_closed_cpp / _py) on the real outputs
     from decaylanguage.modeling.goofit import GooFitChain, GooFitPyChain, programmatic_name
